@@ -51,7 +51,8 @@ def gen_cases(ctx):
         )
         yield dict(spec=spec, query=rng.choice(["logdet", "torch.logdet", "inv_quad", "inv_quad_logdet", "inv_quad_logdet"]),
                    rhs=rng.choice(["none", "vec", "mat", "mat"]), reduce=rng.random() < 0.6, want_logdet=rng.random() < 0.8,
-                   cfg=cfg, rseed=rng.randrange(1 << 30))
+                   cfg=cfg, rseed=rng.randrange(1 << 30),
+                   cached=rng.choice([None, None, None, "root_decomposition", "cholesky", "root_inv_decomposition"]))
 
 
 def _sym_fun(M, f):
@@ -95,6 +96,12 @@ def run_case(case, ctx):
     ctx.stat("queries")
 
     def call():
+        if case.get("cached"):
+            # a factorization requested earlier on the same object (under default settings): inv_quad_logdet has a shortcut through a
+            # cached triangular root
+            with warnings.catch_warnings():
+                warnings.simplefilter("ignore")
+                pre_, exc_ = compare.attempt(lambda: getattr(op, case["cached"])())
         if query == "logdet":
             return None, op.logdet()
         if query == "torch.logdet":
